@@ -82,6 +82,8 @@ Lemma qmul_le_mono_r a b c : 0 <= c -> a <= b -> a * c <= b * c.
 Proof.
   unfold Qcle. intros Hc Hab. rewrite !this_mult. rewrite this_0 in Hc. apply Qmult_le_compat_r; assumption.
 Qed.
+Lemma qpos_ne0 (x : Qc) : 0 < x -> x <> 0.
+Proof. intros H E. rewrite E in H. apply (Qclt_not_le _ _ H). apply Qcle_refl. Qed.
 Lemma two_half x : two * (x * half) = x.
 Proof. qc_lra. Qed.
 Lemma half_ne0 : half <> 0.
